@@ -651,6 +651,7 @@ let run_swp toks =
         | 'X', [k] -> Sweep.EProc k
         | 'L', [i; k] -> Sweep.ELazySee (i, k)
         | 'R', [i] -> Sweep.ELazyRetire i
+        | 'I', [k; d] -> Sweep.EIncr (k, d)
         | _ -> failwith ("bad sweep event " ^ t) in
       let (s', o) = Sweep.sstep !st ev in
       st := s';
@@ -659,6 +660,8 @@ let run_swp toks =
        | 'G', Sweep.SVal (Some v) -> outs := ("g:" ^ string_of_n v) :: !outs
        | 'T', Sweep.SBool b -> outs := (if b then "t:1" else "t:0") :: !outs
        | 'D', Sweep.SBool b -> outs := (if b then "d:1" else "d:0") :: !outs
+       | 'I', Sweep.SVal None -> outs := "i:-" :: !outs
+       | 'I', Sweep.SVal (Some v) -> outs := ("i:" ^ string_of_n v) :: !outs
        | _ -> ())) toks;
   let tbl = Stdlib.List.sort compare (Stdlib.List.map (fun (k, g) -> (Z.to_int (z_of_n k), g)) !st.Sweep.ss_tbl) in
   Stdlib.String.concat ";" (Stdlib.List.rev !outs) ^ " final=" ^
